@@ -183,7 +183,11 @@ def run(ctx):
             srw_seen = set()
             probed = c19_lines.committed_shape_ops(os.path.join(out, "tofile.ops"), os.path.join(out, "tofile.model.ops"), srw_seen)
             srw = c19_lines.seal_read_warns_from_gen()
-            if srw != 1 or srw_seen - {"1"}:
+            if "-1" in srw_seen:
+                # the read fault could not be injected here (e.g. the work directory is not traversable for the unprivileged
+                # child that the probe runs as): the regenerated skeleton alone decides, the probe is reported as unavailable
+                ctx.notes.append("sealTornTail probe unavailable in this environment (fault not injectable): skeleton only")
+            if srw != 1 or srw_seen - {"1", "-1"}:
                 msg = ("probe of sealTornTail on an unreadable file (real updateFile()): sealReadWarns = %s, regenerated skeleton: %s "
                        "(accepted: only 1 = F47b = /repo 73f7348 for both; 0 = F47 alone, F47b reverted)" % (sorted(srw_seen), srw))
                 if msg not in corr_broken:
